@@ -221,9 +221,9 @@ func (r *retained) lit() string {
 		return r.prefix
 	}
 	if r.later == 0 {
-		r.final, r.finalHas = r.copy, r.has
+		return r.prefix + "; o_final := None; o_later := 0 |} |}" // re-read and equal to the private copy every time
 	}
-	return r.prefix + fmt.Sprintf("; o_final := %s; o_later := %d |} |}", jgen.OptBytes(r.final, r.finalHas), r.later)
+	return r.prefix + fmt.Sprintf("; o_final := (Some %s); o_later := %d |} |}", jgen.OptBytes(r.final, r.finalHas), r.later)
 }
 
 var churnPayloads = []interface{}{"", "x", strings.Repeat("z", 700), map[string]interface{}{"k": []interface{}{1, "two", nil}}, strings.Repeat("<&>\n", 40), 12345}
